@@ -316,6 +316,11 @@ func runC04(c *core.Case) {
 		ids = sh
 	}
 	in := ref.Exts(ids)
+	if len(in) > 0 && c.I >= c04Directed && r.P(0.03) { // one ID spelled with non-canonical numerals the parser accepts
+		k := r.Intn(len(in))
+		in[k] = respell(r, in[k])
+		c.Tag("respelled-numerals")
+	}
 	inCopy := copyStrings(in)
 	var got, again []string
 	var err error
